@@ -453,6 +453,7 @@ func replayMain[C any](t *testing.T, spec Spec[C], path string) {
 		os.Exit(2)
 	}
 	spec.Run(t, c) // warm-up, see Main
+	TraceLimit = envInt("KEVOSIM_TRACELIMIT", 4000)
 	Verbose = true
 	simos.DescribeHex = true
 	res := spec.Run(t, c)
